@@ -12,6 +12,8 @@ WORK = os.path.join(VERIF, ".work")
 PY = "/venv/bin/python"
 REPO = os.environ.get("VERIF_REPO", "/repo")
 GUARD = "AUTOBAHN_VERIF"
+# evidence/ and replays/ are written below OUT_DIR (default /verif); mutant evaluation redirects it
+OUT_DIR = os.environ.get("VERIF_OUT_DIR", VERIF)
 
 
 class MachineryError(Exception):
@@ -83,7 +85,7 @@ class Result:
 
     # ---- verdicts ------------------------------------------------------------------
     def write_replay(self, name, payload):
-        d = os.path.join(VERIF, "replays", self.pid)
+        d = os.path.join(OUT_DIR, "replays", self.pid)
         os.makedirs(d, exist_ok=True)
         safe = "".join(c if c.isalnum() or c in "-_." else "_" for c in name)[:80]
         p = os.path.join(d, safe + ".json")
@@ -124,8 +126,8 @@ class Result:
         ev = dict(property_id=self.pid, tier=self.tier, seed=self.seed, level=level, coverage=cov,
                   assumptions=self.assumptions, wall_s=round(time.time() - self.t0, 2),
                   violations=len(self.violations))
-        os.makedirs(os.path.join(VERIF, "evidence"), exist_ok=True)
-        with open(os.path.join(VERIF, "evidence", self.pid + ".json"), "w") as f:
+        os.makedirs(os.path.join(OUT_DIR, "evidence"), exist_ok=True)
+        with open(os.path.join(OUT_DIR, "evidence", self.pid + ".json"), "w") as f:
             json.dump(ev, f, indent=1, default=str)
         return 1 if self.violations else 0
 
